@@ -183,6 +183,9 @@ pub enum Sel {
     Global { n: u64 },
     /// the n-th operation of a kind on a path class, 0-based
     Nth { kind: IoKind, class: PathClass, n: u64 },
+    /// the n-th read of a path class that is not made by one of the checker's own comparison queries
+    /// (reads of index loads, deletes into dumped blobs, restores, dumps, background work), 0-based
+    NthOpRead { class: PathClass, n: u64 },
 }
 
 #[derive(Serialize, Deserialize, Clone, Debug, PartialEq)]
